@@ -149,3 +149,12 @@ M["M13_filter_check_last_or_group_only"] = ("fastparquet/api.py", '''    known =
 M["M14_selection_check_first_column_only"] = ("fastparquet/api.py", '''        check_column_names(self.columns + list(self.cats), columns, categories)
 ''', '''        check_column_names(self.columns + list(self.cats), columns[:1] if columns else columns, categories)
 ''', "M")
+M["M15_find_type_accepts_kind_O_extension_dtypes"] = ("fastparquet/writer.py", '''                                       None, dtype.itemsize)
+    elif dtype == "O":
+        if object_encoding == 'infer':
+            object_encoding = infer_object_encoding(data)
+''', '''                                       None, dtype.itemsize)
+    elif dtype.kind == "O" and "str" not in str(dtype):
+        if object_encoding == 'infer':
+            object_encoding = infer_object_encoding(data)
+''', "M")
